@@ -1,1 +1,5 @@
+pub mod deploy;
+pub mod ex;
+pub mod report;
 pub mod rt;
+pub mod smoke;
